@@ -16,6 +16,13 @@ Sub-checks (names usable with --only):
               independent of the input order
   sets        sets and dicts of the whole universe built in several insertion orders: size =
               number of distinct values, every freshly built equal object is found
+  routes      construction routes: for every mesh value of a stated family the equal object is
+              obtained along every route (shaded cells in every order, six container types,
+              symmetry round trips, unrank, shade, sub_mesh_pattern, every bivincular-type
+              spelling) and so are the one-element (and, for a family of pairs, two-element)
+              mesh bases; permutations and classical bases likewise; all objects of one value
+              must agree under ==, !=, hash, set/dict lookup both ways and the order operators
+              (within the group and against a fixed list of probes)
   perm_order  all ordered pairs of S<=5 (thorough S<=6): the six operators against (length,
               entries); sorted() of S<=n from rotated/reversed orders
   history     BFS over histories of {hash x_i, use x_i, retain an object of some size class,
@@ -663,6 +670,470 @@ def shard_perm_order(shard):
 
 
 # --------------------------------------------------------------------------------------------
+# E1: construction routes
+# --------------------------------------------------------------------------------------------
+# One VALUE, many ways to obtain an object denoting it.  All objects obtained for one value must
+# be indistinguishable through ==, hash, set/dict lookup (both ways) and the order operators, and
+# so must the bases built from them.  A route is a JSON-able descriptor.
+
+def cell_orders(cells):
+    """Orders in which the shaded cells are handed over: every order for <= 3 cells; beyond
+    that sorted, reversed, every rotation of the sorted list and evens-then-odds."""
+    cells = sorted(cells)
+    k = len(cells)
+    if k <= 3:
+        return [list(o) for o in itertools.permutations(cells)]
+    out = [cells, cells[::-1]]
+    for r in range(1, k):
+        out.append(cells[r:] + cells[:r])
+    out.append(cells[::2] + cells[1::2])
+    return out
+
+
+ROUND_TRIPS = ("reverse2", "complement2", "inverse2", "rotate1x4", "rotate2x2", "rotate3+1",
+               "rotate-1+1", "reverse.complement.rotate2", "flip_h2", "flip_v2", "flip_d2")
+
+
+def mesh_routes(value):
+    p, sh = value
+    n = len(p)
+    cells = sorted(sh)
+    routes = [["cells", [list(c) for c in o]] for o in cell_orders(cells)]
+    for cont in ("frozenset", "set", "generator", "tuple", "frozenset-of-reversed", "dict-keys"):
+        routes.append(["container", cont])
+    for rt in ROUND_TRIPS:
+        routes.append(["roundtrip", rt])
+    routes.append(["unrank"])
+    routes.append(["submesh-all"])
+    routes.append(["shade-all-reversed"])
+    if cells:
+        routes.append(["shade-first-last"])
+    subsets = [list(a) for r in range(n + 2) for a in itertools.combinations(range(n + 1), r)]
+    for a in subsets:
+        for b in subsets:
+            if F.sem(["biv", list(p), a, b])[1] == sh:
+                routes.append(["biv", a, b])
+                if len(a) > 1 or len(b) > 1:
+                    routes.append(["biv", a[::-1], b[::-1]])
+                if not b:
+                    routes.append(["vinc", a])
+                    if len(a) > 1:
+                        routes.append(["vinc", a[::-1]])
+                if not a:
+                    routes.append(["covinc", b])
+                    if len(b) > 1:
+                        routes.append(["covinc", b[::-1]])
+    return routes
+
+
+def build_mesh_route(value, route):
+    L = lib()
+    p, sh = value
+    P = L.Perm(p)
+    n = len(p)
+    cells = sorted(sh)
+    kind = route[0]
+    if kind == "cells":
+        return L.MeshPatt(P, [tuple(c) for c in route[1]])
+    if kind == "container":
+        c = route[1]
+        if c == "frozenset":
+            return L.MeshPatt(P, frozenset(cells))
+        if c == "set":
+            return L.MeshPatt(P, set(cells[::-1]))
+        if c == "generator":
+            return L.MeshPatt(P, (x for x in cells[::-1]))
+        if c == "tuple":
+            return L.MeshPatt(P, tuple(cells[::-1]))
+        if c == "frozenset-of-reversed":
+            return L.MeshPatt(P, frozenset(cells[::-1]))
+        return L.MeshPatt(P, dict.fromkeys(cells[::-1]).keys())
+    if kind == "roundtrip":
+        m = L.MeshPatt(P, cells)
+        t = route[1]
+        if t == "reverse2":
+            return m.reverse().reverse()
+        if t == "complement2":
+            return m.complement().complement()
+        if t == "inverse2":
+            return m.inverse().inverse()
+        if t == "rotate1x4":
+            return m.rotate().rotate().rotate().rotate()
+        if t == "rotate2x2":
+            return m.rotate(2).rotate(2)
+        if t == "rotate3+1":
+            return m.rotate(3).rotate(1)
+        if t == "rotate-1+1":
+            return m.rotate(-1).rotate(1)
+        if t == "reverse.complement.rotate2":
+            return m.reverse().complement().rotate(2)
+        if t == "flip_h2":
+            return m.flip_horizontal().flip_horizontal()
+        if t == "flip_v2":
+            return m.flip_vertical().flip_vertical()
+        if t == "flip_d2":
+            return m.flip_diagonal().flip_diagonal()
+        raise ValueError(t)
+    if kind == "unrank":
+        return L.MeshPatt.unrank(P, sum(1 << (x * (n + 1) + y) for x, y in cells))
+    if kind == "submesh-all":
+        return L.MeshPatt(P, cells).sub_mesh_pattern(range(n))
+    if kind == "shade-all-reversed":
+        return L.MeshPatt(P, []).shade(*cells[::-1])
+    if kind == "shade-first-last":
+        return L.MeshPatt(P, cells[1:]).shade(cells[0])
+    if kind == "biv":
+        return L.Biv(P, list(route[1]), list(route[2]))
+    if kind == "vinc":
+        return L.Vinc(P, list(route[1]))
+    if kind == "covinc":
+        return L.Covinc(P, list(route[1]))
+    raise ValueError(kind)
+
+
+def perm_routes(p):
+    return [["tuple"], ["list"], ["generator"], ["to_standard"], ["reverse2"], ["complement2"],
+            ["inverse2"], ["rotate1x4"], ["from_string"], ["one_based"], ["unrank"],
+            ["meshpatt.pattern"], ["get_perm"]]
+
+
+def build_perm_route(p, route):
+    L = lib()
+    k = route[0]
+    if k == "tuple":
+        return L.Perm(tuple(p))
+    if k == "list":
+        return L.Perm(list(p))
+    if k == "generator":
+        return L.Perm(v for v in p)
+    if k == "to_standard":
+        return L.Perm.to_standard([5 * v + 1 for v in p])
+    if k == "reverse2":
+        return L.Perm(p).reverse().reverse()
+    if k == "complement2":
+        return L.Perm(p).complement().complement()
+    if k == "inverse2":
+        return L.Perm(p).inverse().inverse()
+    if k == "rotate1x4":
+        return L.Perm(p).rotate().rotate().rotate().rotate()
+    if k == "from_string":
+        return L.Perm.from_string("".join(map(str, p))) if p else L.Perm.from_string("\u03b5")
+    if k == "one_based":
+        return L.Perm.one_based([v + 1 for v in p])
+    if k == "unrank":
+        return L.Perm.unrank(L.Perm(p).rank())
+    if k == "meshpatt.pattern":
+        return L.MeshPatt(L.Perm(p), [(0, 0)]).pattern
+    if k == "get_perm":
+        return L.MeshPatt(L.Perm(p), []).get_perm()
+    raise ValueError(k)
+
+
+def route_values(quick):
+    """The mesh values whose routes are explored: every shading of length <= 1, every shading
+    with <= 3 cells of length 2, every bivincular-type shading of length <= 2, the full shading;
+    thorough: also <= 4 cells of length 2 and <= 2 cells / one-adjacency shadings of length 3."""
+    vals = []
+    seen = set()
+
+    def add(p, sh):
+        v = (tuple(p), frozenset(sh))
+        if v not in seen:
+            seen.add(v)
+            vals.append(v)
+    for k in (0, 1):
+        for p in R.perms(k):
+            for sh in R.all_shadings(k):
+                add(p, sh)
+    for p in R.perms(2):
+        for r in range(0, (3 if quick else 4) + 1):
+            for sh in itertools.combinations(R.all_cells(2), r):
+                add(p, sh)
+        add(p, R.all_cells(2))
+    for k in (0, 1, 2):
+        for s in biv_type_specs(k, True):
+            add(*F.sem(s))
+    if not quick:
+        for p in R.perms(3):
+            for r in range(0, 3):
+                for sh in itertools.combinations(R.all_cells(3), r):
+                    add(p, sh)
+            for a in range(4):
+                add(*F.sem(["vinc", list(p), [a]]))
+                add(*F.sem(["covinc", list(p), [a]]))
+                add(*F.sem(["biv", list(p), [a], [3 - a]]))
+    return vals
+
+
+def route_probes():
+    """Objects every route object is compared with (order operators): one plainly built object
+    for every shading of length <= 1 and every <= 1-cell shading of length 2, plus the
+    one-adjacency (co)vincular patterns of length 2."""
+    L = lib()
+    out = []
+    for k in (0, 1):
+        for p in R.perms(k):
+            for sh in R.all_shadings(k):
+                out.append(L.MeshPatt(L.Perm(p), sorted(sh)))
+    for p in R.perms(2):
+        out.append(L.MeshPatt(L.Perm(p), []))
+        for c in R.all_cells(2):
+            out.append(L.MeshPatt(L.Perm(p), [c]))
+        for a in range(3):
+            out.append(L.Vinc(L.Perm(p), [a]))
+            out.append(L.Covinc(L.Perm(p), [a]))
+    return out
+
+
+def check_group(part, what, value_desc, routes, objs, probes, ordered):
+    """objs[i] was obtained through routes[i]; all denote the same value.  Every ordered pair:
+    ==, !=, hash, lookups both ways; with `ordered`: order operators within the group and
+    identical answers against every probe."""
+    m = len(objs)
+    try:
+        hashes = [hash(o) for o in objs]
+    except Exception as exc:  # noqa
+        part.violation("routes:hash", {"what": what, "value": value_desc}, {"exception": repr(exc)})
+        return 0
+    nontrivial = 0
+    for i in range(m):
+        a = objs[i]
+        for j in range(m):
+            b = objs[j]
+            case = {"what": what, "value": value_desc, "a": routes[i], "b": routes[j]}
+            try:
+                eq, ne = (a == b), (a != b)
+                if eq is not True or ne is not False:
+                    part.violation("routes:eq", case, {"a==b": eq, "a!=b": ne,
+                                                       "a": repr(a), "b": repr(b)})
+                    continue
+                if hashes[i] != hashes[j]:
+                    part.violation("routes:hash", case, {"hash_a": hashes[i], "hash_b": hashes[j],
+                                                         "a": repr(a), "b": repr(b)})
+                    continue
+                d = {b: 1}
+                if not (a in {b} and a in frozenset((b,)) and a in d and d.get(a) == 1):
+                    part.violation("routes:lookup", case, {"a in {b}": a in {b},
+                                                           "{b:1}.get(a)": d.get(a)})
+                    continue
+                if ordered:
+                    o = [a < b, a <= b, a > b, a >= b]
+                    if o != [False, True, False, True]:
+                        part.violation("routes:order", case, {"[a<b, a<=b, a>b, a>=b]": o})
+                        continue
+            except Exception as exc:  # noqa
+                part.violation("routes:exception", case, {"exception": repr(exc)})
+                continue
+            if i != j:
+                nontrivial += 1
+    # one set / dict of the whole group, in both directions of insertion
+    try:
+        for seq in (objs, objs[::-1]):
+            if len(set(seq)) != 1 or len(dict.fromkeys(seq)) != 1:
+                part.violation("routes:lookup", {"what": what, "value": value_desc,
+                                                 "a": routes[0], "b": routes[-1]},
+                               {"len(set(all routes))": len(set(seq))})
+                break
+    except Exception as exc:  # noqa
+        part.violation("routes:exception", {"what": what, "value": value_desc,
+                                            "a": routes[0], "b": routes[-1]},
+                       {"exception": repr(exc)})
+    if ordered and probes:
+        try:
+            ref = None
+            for i, a in enumerate(objs):
+                row = [(a < q, a <= q, q < a, q <= a, a == q) for q in probes]
+                if ref is None:
+                    ref = row
+                elif row != ref:
+                    t = next(t for t in range(len(row)) if row[t] != ref[t])
+                    part.violation("routes:order", {"what": what, "value": value_desc,
+                                                    "a": routes[0], "b": routes[i], "probe": t},
+                                   {"probe": repr(probes[t]),
+                                    "[x<q, x<=q, q<x, q<=x, x==q] via a": ref[t], "via b": row[t]})
+                    break
+        except Exception as exc:  # noqa
+            part.violation("routes:exception", {"what": what, "value": value_desc,
+                                                "a": routes[0], "b": routes[0]},
+                           {"exception": repr(exc)})
+    return nontrivial
+
+
+def build_routes(part, what, value, value_desc, routes, builder, same_value):
+    """Objects for all routes; a route whose object does not denote the value (symmetry or
+    unrank misbehaving: the business of C04/C09) is counted and left out."""
+    objs, kept = [], []
+    for r in routes:
+        try:
+            o = builder(value, r)
+        except Exception as exc:  # noqa
+            part.violation("routes:exception", {"what": what, "value": value_desc, "a": r, "b": r},
+                           {"exception": repr(exc)})
+            continue
+        if not same_value(o):
+            part.bump("routes_not_denoting_the_value")
+            continue
+        objs.append(o)
+        kept.append(r)
+    return objs, kept
+
+
+def mesh_value_desc(v):
+    return [list(v[0]), F.cells_list(v[1])]
+
+
+def check_mesh_value(part, v, probes):
+    L = lib()
+    desc = mesh_value_desc(v)
+    objs, routes = build_routes(
+        part, "pattern", v, desc, mesh_routes(v), build_mesh_route,
+        lambda o: (tuple(o.pattern), frozenset(tuple(c) for c in o.shading)) == v)
+    nt = check_group(part, "pattern", desc, routes, objs, probes, True)
+    n = len(objs) ** 2
+    # the one-element mesh basis of every route object, and its rebuilt copy
+    try:
+        bases = [L.MeshBasis(o) for o in objs]
+        bases += [L.MeshBasis(*bases[0]), L.MeshBasis.from_iterable(iter([objs[-1], objs[0]]))]
+        broutes = routes + [["basis-of-basis"], ["from_iterable-last-first"]]
+    except Exception as exc:  # noqa
+        part.violation("routes:exception", {"what": "meshbasis", "value": desc,
+                                            "a": routes[0], "b": routes[0]},
+                       {"exception": repr(exc)})
+        return n, nt
+    nt += check_group(part, "meshbasis", desc, broutes, bases, None, False)
+    n += len(bases) ** 2
+    return n, nt
+
+
+def shard_routes_mesh(shard):
+    quick, lo, hi = shard
+    part = Partial()
+    vals = route_values(quick)
+    probes = route_probes()
+    for v in vals[lo:hi]:
+        n, nt = check_mesh_value(part, v, probes)
+        part.add(n, nt)
+        part.bump("route_values")
+    if lo == 0:
+        part.sample({"value": mesh_value_desc(vals[min(len(vals) - 1, 40)]),
+                     "routes": mesh_routes(vals[min(len(vals) - 1, 40)])[:8]}, cap=1)
+    return part
+
+
+def pair_values(quick):
+    """Pairs of incomparable mesh values for two-element bases: the values of the deep pool
+    (thorough: sub pool) of mc/ref_c05.py with 1..3 cells."""
+    pool = F.deep_pool() if quick else F.sub_pool()
+    vals = []
+    for s in pool:
+        v = F.sem(s)
+        if 1 <= len(v[1]) <= 3 and v not in vals:
+            vals.append(v)
+    out = []
+    for a, b in itertools.combinations(vals, 2):
+        if F.minimal(frozenset([a, b])) == frozenset([a, b]):
+            out.append((a, b))
+    return out
+
+
+def check_pair_value(part, a, b):
+    """Two-element mesh bases: every cell order of a x every cell order of b x both argument
+    orders, plus the bivincular-type constructors where they exist."""
+    L = lib()
+    desc = [mesh_value_desc(a), mesh_value_desc(b)]
+    ra = [r for r in mesh_routes(a) if r[0] in ("cells", "biv", "vinc", "covinc")] + \
+        [["roundtrip", "reverse2"]]
+    rb = [r for r in mesh_routes(b) if r[0] in ("cells", "biv", "vinc", "covinc")] + \
+        [["roundtrip", "reverse2"]]
+    bases, routes = [], []
+    try:
+        for x in ra:
+            for y in rb:
+                oa, ob = build_mesh_route(a, x), build_mesh_route(b, y)
+                bases.append(L.MeshBasis(oa, ob))
+                routes.append([x, y, "a,b"])
+                bases.append(L.MeshBasis(ob, oa))
+                routes.append([x, y, "b,a"])
+    except Exception as exc:  # noqa
+        part.violation("routes:exception", {"what": "meshbasis2", "value": desc,
+                                            "a": routes[-1] if routes else None, "b": None},
+                       {"exception": repr(exc)})
+        return 0, 0
+    nt = check_group(part, "meshbasis2", desc, routes, bases, None, False)
+    return len(bases) ** 2, nt
+
+
+def shard_routes_pairs(shard):
+    quick, lo, hi = shard
+    part = Partial()
+    for a, b in pair_values(quick)[lo:hi]:
+        n, nt = check_pair_value(part, a, b)
+        part.add(n, nt)
+        part.bump("route_value_pairs")
+    return part
+
+
+def classical_route_sets():
+    pool = R.perms_upto(3)
+    out = []
+    for r in (1, 2):
+        for ps in itertools.combinations(pool, r):
+            sems = frozenset((p, frozenset()) for p in ps)
+            if F.minimal(sems) == sems:
+                out.append(ps)
+    return out
+
+
+def check_classical_routes(part, quick):
+    """Permutations (S<=4, thorough S<=5) along 13 routes; classical bases (antichains of <= 2
+    patterns of S<=3) through constructor orders, from_iterable and the two text forms."""
+    L = lib()
+    for p in R.perms_upto(4 if quick else 5):
+        routes = perm_routes(p)
+        objs, kept = build_routes(part, "perm", p, list(p), routes, build_perm_route,
+                                  lambda o: tuple(o) == tuple(p))
+        nt = check_group(part, "perm", list(p), kept, objs, None, True)
+        part.add(len(objs) ** 2, nt)
+    for ps in classical_route_sets():
+        desc = [list(p) for p in ps]
+        try:
+            objs = [L.Perm(p) for p in ps]
+            bases = [L.Basis(*objs), L.Basis(*objs[::-1]), L.Basis.from_iterable(iter(objs)),
+                     L.Basis(*[build_perm_route(p, ["inverse2"]) for p in ps]),
+                     L.Basis(*[build_perm_route(p, ["to_standard"]) for p in ps])]
+            routes = [["ctor"], ["ctor-reversed"], ["from_iterable"], ["ctor-of-inverse2"],
+                      ["ctor-of-to_standard"]]
+            if all(len(p) for p in ps):
+                bases.append(L.Basis.from_string(" ".join(F.text0(p) for p in ps)))
+                bases.append(L.Basis.from_string(", ".join(F.text1(p) for p in ps[::-1])))
+                routes += [["from_string-0"], ["from_string-1-reversed"]]
+        except Exception as exc:  # noqa
+            part.violation("routes:exception", {"what": "basis", "value": desc, "a": None,
+                                                "b": None}, {"exception": repr(exc)})
+            continue
+        nt = check_group(part, "basis", desc, routes, bases, None, False)
+        part.add(len(bases) ** 2, nt)
+
+
+def shard_routes_classical(shard):
+    part = Partial()
+    check_classical_routes(part, shard[0])
+    return part
+
+
+def replay_routes(ctx, case):
+    what, value = case["what"], case["value"]
+    if what in ("pattern", "meshbasis"):
+        v = (tuple(value[0]), frozenset(tuple(c) for c in value[1]))
+        check_mesh_value(ctx, v, route_probes())
+    elif what == "meshbasis2":
+        a, b = [(tuple(x[0]), frozenset(tuple(c) for c in x[1])) for x in value]
+        check_pair_value(ctx, a, b)
+    else:
+        check_classical_routes(ctx, True)
+
+
+# --------------------------------------------------------------------------------------------
 # E2: allocation histories between hash computations
 # --------------------------------------------------------------------------------------------
 
@@ -945,6 +1416,30 @@ def run(ctx, only=None):
         ctx.bounds["perm_order"] = "all ordered pairs of S<=%d; sorted(S<=%d) from %d arrangements" \
                                    % (n, n, len(rotations(range(10), 6)))
         ctx.section("perm_order", evaluations=ctx.evals - e0)
+    if want("routes"):
+        e0 = ctx.evals
+        vals = route_values(quick)
+        per = max(1, len(vals) // 96)
+        ctx.pmap(shard_routes_mesh, [(quick, lo, min(len(vals), lo + per))
+                                     for lo in range(0, len(vals), per)])
+        prs = pair_values(quick)
+        per = max(1, len(prs) // 48)
+        ctx.pmap(shard_routes_pairs, [(quick, lo, min(len(prs), lo + per))
+                                      for lo in range(0, len(prs), per)])
+        ctx.pmap(shard_routes_classical, [(quick,)])
+        ctx.bounds["routes"] = {
+            "mesh_values": len(vals),
+            "mesh_value_family": route_values.__doc__.strip(),
+            "routes_per_value": "cells in every order (<=3 cells; sorted/reversed/rotations/"
+                                "riffle beyond), 6 container types, %d symmetry round trips, "
+                                "unrank, sub_mesh_pattern(all), shade (2 ways), every "
+                                "Bivincular/Vincular/Covincular spelling; one-element MeshBasis "
+                                "of every route object" % len(ROUND_TRIPS),
+            "two_element_bases": {"value_pairs": len(prs), "family": pair_values.__doc__.strip()},
+            "classical": check_classical_routes.__doc__.strip(),
+            "order_probes": len(route_probes())}
+        ctx.section("routes", mesh_values=len(vals), value_pairs=len(prs),
+                    evaluations=ctx.evals - e0)
     if want("history"):
         # depth (operations) from the fresh state / after all three objects were hashed once
         depths = [(4, 3) if quick else (5, 4)] * len(CONFIGS)
@@ -1035,6 +1530,8 @@ def replay(ctx, rec):
                 ctx.violation("perm_order", case, {"got": "differs"})
     elif sub == "build":
         try_build(ctx, case["entry"])
+    elif sub.startswith("routes:"):
+        replay_routes(ctx, case)
     elif sub.startswith("history:"):
         model = HashHistory(CONFIGS[case["config"]])
         hist = tuple(tuple(op) for op in case["history"])
